@@ -121,11 +121,32 @@ def tla_literal(x):
     return str(x)
 
 
+def add_comments(files):
+    """Documentation comments as the real protocol files carry them: on types, fields and arrays; multi-line, with quotes (also as the
+    last character), apostrophes, markup characters and non-ASCII letters.  They end up in docstrings of the generated code."""
+    import re
+    out = {}
+    for d, body in files.items():
+        n = [0]
+
+        def text():
+            n[0] += 1
+            return ['The "quoted" kind', "It's the player's id &amp; more &lt;here&gt;", 'ends with a quote: "this"', "Grüße — naïve café №5",
+                    "first line\n      second line"][n[0] % 5]
+        body = re.sub(r'(<(?:struct|packet|enum) [^>]*[^/]>)', lambda m: m.group(1) + "\n    <comment>" + text() + "</comment>", body)
+        body = re.sub(r'<((?:field|array) [^>]*name="[^"]+"[^>]*)/>', lambda m: "<" + m.group(1) + "><comment>" + text() + "</comment></" + m.group(1).split()[0] + ">", body)
+        out[d] = body
+    return out
+
+
 def run_gen(src, xml, out, order, hashseed, tmp, repeat=1):
     of = tmp / "order.json"
     dump_json(of, order)
+    env = dict(ENV, PYTHONHASHSEED=str(hashseed))
+    if repeat == "locale":
+        env.update({"LC_ALL": "C", "LANG": "C", "PYTHONCOERCECLOCALE": "0", "PYTHONUTF8": "0"})     # a plain C locale: the output is still UTF-8
     p = subprocess.run([PY, "-B", str(VERIF / "harness" / "drivers" / "gen_driver.py"), str(src), str(xml), str(out), str(of), str(repeat)],
-                       capture_output=True, text=True, timeout=600, env=dict(ENV, PYTHONHASHSEED=str(hashseed)))
+                       capture_output=True, text=True, timeout=600, env=env)
     if p.returncode != 0:
         raise MachineryError("gen_driver crashed: " + p.stderr[-800:])
     return json.loads(p.stdout.strip().splitlines()[-1])
@@ -179,7 +200,8 @@ def run(tier, corrupt=False):
             k = 4 if tier == "quick" else 24
             pick = [orders[0], orders[-1]] + [orders[(seed() * 7 + j * 5) % len(orders)] for j in range(k - 2)]
             xml = tmp / f"xml_{tname}"
-            write_tree(xml, tree_files(progs, types))
+            tf_ = tree_files(progs, types)
+            write_tree(xml, add_comments(tf_) if tname in ("upstream-like", "sibling-references") else tf_)
             canon = None
             configs = []
             for j, order in enumerate(pick):
@@ -189,6 +211,7 @@ def run(tier, corrupt=False):
             configs.append((pick[-1], 3, 1, True))          # into a pre-populated directory
             configs.append((pick[0], 1, "reuse", False))    # the same generator instance, after a run that failed on a then-broken file
             configs.append((pick[-1], 2, "decoy", False))   # after another instance generated a tree with the same names and other ordinals
+            configs.append((pick[0], 0, "locale", False))   # under a C locale without UTF-8 mode
             expected_paths = None
             for ci, (order, hs, repeat, prepop) in enumerate(configs):
                 out = tmp / f"out_{tname}_{ci}"
